@@ -91,7 +91,11 @@ func VH_C06() {
 	hygieneOnly := vParam("hygiene", 0) == 1
 	// a []byte value is checked with a fixed message, so that every control
 	// byte in the output can only come from the value
-	rawBytes := vParam("attrkinds", 4) > 4 && vChoose(2) == 1
+	special := 0 // 1: []byte value, 2: error value, 3: Stringer value - each with an arbitrary byte
+	if vParam("attrkinds", 4) > 4 {
+		special = vChoose(vParam("attrkinds", 4) - 3)
+	}
+	rawBytes := special > 0
 	nk := vParam("attrkinds", 4)
 	if nk > 4 {
 		nk = 4
@@ -143,7 +147,14 @@ func VH_C06() {
 	}
 	if rawBytes {
 		b := vString(1)
-		attrs = Attrs{NewAttr("y", []byte(b))}
+		switch special {
+		case 1:
+			attrs = Attrs{NewAttr("y", []byte(b))}
+		case 2:
+			attrs = Attrs{NewAttr("y", errors.New("e"+b)), NewAttr("z", 1)}
+		case 3:
+			attrs = Attrs{NewAttr("y", vStringerT{"s" + b})}
+		}
 		want = []string{"y=" + strconvQuote(b)}
 	}
 	lg.WriteThru(vCtx, sev, vTime0(), 0, msg, attrs)
